@@ -7,7 +7,7 @@ CONDS = [["v", "c"], ["v", "d"], ["not", ["v", "c"]], ["not", ["not", ["v", "c"]
          ["cb", True], ["cb", False]]
 
 
-def parse_tokens(toks):
+def parse_tokens(toks, CONDS=CONDS):
     """Preorder token list from TreeGen -> tree JSON (leaves numbered in creation order)."""
     pos = [0]
     leaf = [0]
